@@ -453,7 +453,13 @@ func BatchFunc[T any](
 				out.err = err
 				return
 			}
-			c <- item
+			select {
+			case c <- item:
+			case <-bgCtx.Done():
+				// The batching goroutine below may already have exited because of the
+				// cancellation, in which case nobody will ever receive from c.
+				return
+			}
 		}
 	}()
 
